@@ -409,7 +409,7 @@ def twin_history(rng, hid, params=None):
     return h
 
 
-def chain_history(rng, hid, n=40, params=None):
+def chain_history(rng, hid, n=40, params=None, stride=None):
     """C05: acc (register 1) is repeatedly widened with arbitrary further values built in register 2:
          r2 := top; <a few statements>; r3 := r1 widen (r1 join r2) [with thresholds]; leq(r3, r1); r1 := r3
     The leq steps carry "chain":1 : their answers tell when the chain is stationary."""
@@ -420,10 +420,20 @@ def chain_history(rng, hid, n=40, params=None):
     grow = [rng.choice([1, 1, 2, 3, 7]) for _ in ints]
     sign = [rng.choice([1, 1, -1]) for _ in ints]
     rel = rng.random() < 0.7
+    if stride is None:
+        stride = rng.random() < 0.2
+    if stride:
+        # isolated points with a fixed stride >= 2 (separate, non-adjacent values: disjunctive domains keep several
+        # disjuncts on both sides of the widening), growing upwards for some variables and downwards for others
+        grow = [rng.choice([2, 2, 3]) for _ in ints]
+        sign = [1, -1, rng.choice([1, -1])]
+        rng.shuffle(sign)
+        rel = False
+        ts = None if rng.random() < 0.6 else ts
     # r1 := a bounded start value
     for v in ints:
         steps.append({"op": "stmt", "r": 1, "s": {"op": "assign", "x": v, "e": {"k": rng.randint(-2, 2), "t": []}}})
-    alternate = rng.random() < 0.4
+    alternate = rng.random() < 0.4 and not stride
     if alternate:
         # only ONE bound is relaxed per step, alternately for two variables tied by a stable |a-b| <= 1
         # (a closed left operand of the zones widening would re-derive the dropped bound at every step)
@@ -460,9 +470,9 @@ def chain_history(rng, hid, n=40, params=None):
     for i in range(1, n + 1):
         steps.append({"op": "top", "r": 2, "inplace": 0})
         for v in ints:
-            if rng.random() < 0.8:
-                c = sign[v - 1] * grow[v - 1] * i + rng.randint(-1, 1)
-                kind = rng.random()
+            if stride or rng.random() < 0.8:
+                c = sign[v - 1] * grow[v - 1] * i + (0 if stride else rng.randint(-1, 1))
+                kind = 0.0 if stride else rng.random()
                 if kind < 0.5:
                     steps.append({"op": "stmt", "r": 2, "s": {"op": "assign", "x": v, "e": {"k": c, "t": []}}})
                 else:
